@@ -12,11 +12,13 @@ from .vlib import log
 class AtomicPart:
     def __init__(self, name, scn_cpp, lib_sources, model, scenarios, std=None, extra_flags=(),
                  quick=dict(preemptions=2, max_execs=4000), thorough=dict(preemptions=3, max_execs=60000),
-                 random_execs=(300, 5000), harness_args=(), always_report_rejected=False):
+                 random_execs=(300, 5000), harness_args=(), always_report_rejected=False, extra_srcs=(), on_runs=None):
         self.name, self.scn_cpp, self.lib_sources, self.model = name, scn_cpp, lib_sources, model
         self.scenarios, self.std, self.extra_flags = scenarios, std, extra_flags
         self.quick, self.thorough, self.random_execs = quick, thorough, random_execs
         self.harness_args = list(harness_args)
+        self.extra_srcs = list(extra_srcs)   # further harness/rt runtime files (vlib.build_rt extra_srcs)
+        self.on_runs = on_runs               # optional hook: on_runs(scenario, runs, cov) after the runs of a scenario
         # report histories the model does not admit even if a monitor fired in the same scenario (for
         # scenarios with an open known finding whose failing histories the model DOES admit: the tie
         # must stay alive there)
@@ -25,7 +27,7 @@ class AtomicPart:
     def run(self, tier, seed, verdict, cov, driver):
         t0 = time.time()
         try:
-            exe = vlib.build_rt(self.scn_cpp, self.lib_sources, self.extra_flags, self.std)
+            exe = vlib.build_rt(self.scn_cpp, self.lib_sources, self.extra_flags, self.std, **(dict(extra_srcs=self.extra_srcs) if self.extra_srcs else {}))
         except vlib.BuildError as e:
             verdict.add(f"{self.name}:build", "harness does not build against the current tree: " + str(e)[-1500:],
                         dict(stream=self.name), found_input=False)
@@ -37,6 +39,8 @@ class AtomicPart:
             if nrand:
                 runs.append(vlib.run_rt(exe, scn, "random", 0, nrand, seed, extra=self.harness_args))
                 runs.append(vlib.run_rt(exe, scn, "pct", 3, nrand, seed + 7, extra=self.harness_args))
+            if self.on_runs:
+                self.on_runs(scn, runs, cov)
             seen = {}
             for r in runs:
                 st = r["stats"]
